@@ -538,7 +538,11 @@ static void run_load(const Scn &s) {
     if (rc >= 0 && !expect_fail && partner >= 0) {
         const char *sg = "c19:load-reported-success-but-keys-unusable";
         if (server) usable_pair(hsS, g_keys[partner], k, "the load call reported success, but the server identity it loaded", false, sg);
-        else usable_pair(hsS, k, g_keys[partner], "the load call reported success, but the trust store it loaded", false, sg);
+        else {
+            usable_pair(hsS, k, g_keys[partner], "the load call reported success, but the trust store it loaded", false, sg);
+            // every root of the bundle must be usable, not only the first one
+            if (s.sub == 2 && !g_shm->sig[0]) { Scn e = hsS; e.suite = 0xC02B; usable_pair(e, k, g_keys[K_SRV_EC], "the load call reported success, but the second root of the trust store it loaded", false, sg); }
+        }
     }
     API(matrixSslDeleteKeys(k));
 }
